@@ -1070,6 +1070,30 @@ Definition run_case (c : case) : list oevent :=
 Definition inplace_case (c : case) : bool :=
   match c with Case _ LSame _ _ _ _ => true | _ => false end.
 
+(** The path is chosen by the layout test of in_place.rs, from the sizes and alignments of
+    the two element types as measured in the harness:
+<<
+    fn is_zst<T>() -> bool { size_of::<T>() == 0 }
+    fn is_layout_identical<T, U>() -> bool { size_of::<T>() == size_of::<U>() && align_of::<T>() == align_of::<U>() }
+    if !is_layout_identical::<T, U>() || is_zst::<T>() { fallback } else { in place }
+>>
+    Identical alignment is needed although storage aligned for [T] would do for a less
+    aligned [U]: the storage is later released as [Vec<U>] / [Box<U>], i.e. with [U]'s layout. *)
+Definition is_zst (size_t : N) : bool := N.eqb size_t 0.
+Definition is_layout_identical (size_t align_t size_u align_u : N) : bool :=
+  N.eqb size_t size_u && N.eqb align_t align_u.
+Definition classify (size_t align_t size_u align_u : N) : layout :=
+  if negb (is_layout_identical size_t align_t size_u align_u) || is_zst size_t
+  then (if is_zst size_t then LZst else LDiff)
+  else LSame.
+
+Inductive tcase :=
+  TCase (k : kind) (size_t align_t size_u align_u : N) (ids : list N) (extra : nat) (off : N) (fl : failspec).
+Definition case_of (c : tcase) : case :=
+  match c with
+  | TCase k st al su au ids extra off fl => Case k (classify st al su au) ids extra off fl
+  end.
+
 (** *** Canonical summary of an observation (order of clean-up drops is not compared) *)
 
 Fixpoint insert (x : N) (l : list N) : list N :=
@@ -1131,6 +1155,14 @@ Definition agree (cr : case * list oevent) : bool :=
   list_eqb (list_eqb N.eqb) (summarize (inplace_case c) (run_case c)) (summarize (inplace_case c) real).
 Definition agree_strict (cr : case * list oevent) : bool :=
   let (c, real) := cr in list_eqb oevent_eqb (run_case c) real.
+
+Definition agree_t (cr : tcase * list oevent) : bool := agree (case_of (fst cr), snd cr).
+Definition agree_strict_t (cr : tcase * list oevent) : bool := agree_strict (case_of (fst cr), snd cr).
+
+Example classify_examples :
+  classify 16 8 16 8 = LSame /\ classify 16 8 16 4 = LDiff /\ classify 8 4 8 8 = LDiff /\
+  classify 16 8 8 4 = LDiff /\ classify 0 1 0 1 = LZst /\ classify 0 1 8 8 = LZst.
+Proof. vm_compute. repeat split; reflexivity. Qed.
 
 Example run_case_example :
   run_case (Case KVec LSame [10; 11; 12; 13; 14]%N 0 100 (FailAt 13 RPanic))
